@@ -50,6 +50,11 @@ def make_b(rows, T, mode, seed):
             new.append(r[:3] + [None if x is None else round(x * level * rnd.uniform(0.97, 1.03), 4) for x in r[3:]])
             continue
         new.append(r[:3] + [None if x is None else round(x * rnd.uniform(0.3, 3.0), 4) for x in r[3:]])
+    if mode in ('rewrite', 'wild') and new and rnd.random() < 0.3:
+        # a bad print somewhere in the future: a close of zero
+        k = rnd.randrange(len(new))
+        if new[k][4] is not None:
+            new[k] = new[k][:4] + [0.0, 0.0 if new[k][5] is not None else None]
     out = keep + new
     if not out:
         out = [r[:3] + [None if x is None else round(x * rnd.uniform(0.3, 3.0), 4) for x in r[3:]] for r in fut]
